@@ -23,6 +23,14 @@ def main():
     except ModuleNotFoundError as e:
         print(f"no check for {prop}: {e}", file=sys.stderr)
         return 2
+    try:
+        import tdgl
+        if not os.path.realpath(tdgl.__file__).startswith(os.path.realpath(str(V.REPO)) + os.sep):
+            print(f"INFRA: tdgl was imported from {tdgl.__file__}, not from the tree under check ({V.REPO})")
+            return 2
+    except Exception as e:  # noqa
+        print(f"INFRA: the package under check does not import: {type(e).__name__}: {e}")
+        return 2
     if a.replay:
         payload = json.load(open(a.replay))
         ok = module.replay(payload)
